@@ -208,3 +208,26 @@ def truth_under(test, pol, pred):
                 if r is not None:
                     return r
     return None
+
+
+def tv_eval(e, atom, defs=None):
+    """Three-valued (True / False / None=unknown) evaluation of a boolean expression; `atom(node)` decides leaves
+    (returning None for leaves it knows nothing about).  With `defs` (local_defs of the function) a name that is
+    assigned exactly once is evaluated through its definition."""
+    if isinstance(e, ast.Name) and defs is not None:
+        ds = defs.get(e.id, [])
+        if len(ds) == 1 and ds[0][1] == 'assign':
+            return tv_eval(ds[0][0], atom, None)
+    if isinstance(e, ast.BoolOp):
+        vals = [tv_eval(v, atom, defs) for v in e.values]
+        if isinstance(e.op, ast.And):
+            if any(v is False for v in vals):
+                return False
+            return True if all(v is True for v in vals) else None
+        if any(v is True for v in vals):
+            return True
+        return False if all(v is False for v in vals) else None
+    if isinstance(e, ast.UnaryOp) and isinstance(e.op, ast.Not):
+        v = tv_eval(e.operand, atom, defs)
+        return None if v is None else (not v)
+    return atom(e)
